@@ -86,7 +86,13 @@ def collide_doc():
 def observers_doc():
     return (P.HEAD + "  TSource { id: o1\n    ival: { let p = a.ptr; let s = 0; if (p != null) { s = p.ival; p = p.ptr; if (p != null) { s = s + p.ival; p = p.ptr; "
             "if (p != null) { s = s + p.jval } } } return s }\n    jval: b.ptr != null && b.ptr.ptr != null ? b.ptr.ptr.ival : 0\n"
-            "    text: a.ptr != null ? a.ptr.text : b.ptr != null ? b.ptr.text : \"\"\n  }\n}\n")
+            "    text: a.ptr != null ? a.ptr.text : b.ptr != null ? b.ptr.text : \"\"\n  }\n"
+            # the same property read repeatedly through run-time chosen variables, in one block, in every order with other reads
+            "  TSource { id: o2\n    text: { let s = a.flag ? a.ptr : b.ptr; let t = b.flag ? a.ptr : b.ptr; return s.text + s.text + t.text }\n"
+            "    ival: { let s = a.flag ? a.ptr : b.ptr; let t = b.flag ? a.ptr : b.ptr; return s.ival + s.ival + t.jval + t.jval + s.jval + t.ival }\n"
+            "    jval: { let s = a.flag ? a.ptr : b.ptr; return s.ival + s.ival + s.ival + s.jval }\n  }\n"
+            "  TSource { id: o3\n    text: { let s = a.flag ? a.ptr : b.ptr; let t = b.flag ? a.ptr : b.ptr; return s.text + t.text + s.text + t.text + a.text }\n"
+            "    ival: { let s = a.flag ? a.ptr : b.ptr; let u = s; let v = s.ptr; return s.ival + u.ival + v.ival + s.ptr.ival + v.jval }\n  }\n}\n")
 
 
 GADGET_DOCS = [
